@@ -4,6 +4,8 @@
 
 mod builder;
 mod traversal;
+#[cfg(feature = "verif")]
+mod verif;
 mod view;
 
 use derive_where::derive_where;
